@@ -131,7 +131,7 @@ func runRoot(g *Gen, fn *ssa.Function, c *Contract, u *Unit) {
 	for _, fv := range fn.FreeVars {
 		bind(fv, fv.Name())
 	}
-	g.assumeRaw(fmt.Sprintf("(<= %d %s)", len(g.globals)+64, g.get(entry, "$alloc")))
+	g.assumeRaw(fmt.Sprintf("(and (<= %d %s) (< %s 1099511627776))", len(g.globals)+64, g.get(entry, "$alloc"), g.get(entry, "$alloc")))
 	env := fc.envAt(entry, nil)
 	env.oldState = entry
 	u.env = env
@@ -194,6 +194,10 @@ func (fc *FnCtx) frameObligations(entry, exit *State, env *Env, c *Contract) {
 	for _, k := range g.keyOrder {
 		ki := g.keys[k]
 		if ki.kind == "alloc" || ki.kind == "visited" || ki.kind == "lockstate" || whole[k] {
+			continue
+		}
+		if strings.HasPrefix(k, "A|go.uber.org.zap.") || k == "A|any" {
+			// variadic argument arrays of logging calls: always freshly allocated, never part of a claim
 			continue
 		}
 		a, b := g.get(entry, k), g.get(exit, k)
